@@ -459,7 +459,7 @@ func checkGraphs(c graphCase) (fl *harness.Failure, nontrivial bool) {
 
 func TestCheckGraphs(t *testing.T) {
 	s := harness.NewSub("graph-pairs-random",
-		"pairs of random family graphs (<= 6 people, <= 4 families each; names from a pool of similar spellings, 0..3 names, missing/duplicate events, dates within a decade incl. keyworded, ranges and unparsable; right side independent or an edited copy of the left) x default or random options (four weights summing to 1, ratio/boost in [0,1], prefix <= 10, MaxYears > 0): every individual x individual, the two lists, every family x family, surrounding similarity with and without forceFullCalculation; non-trivial = some individual score strictly between 0 and 1")
+		"pairs of random family graphs (<= 6 people, <= 4 families each, one pair in 80 with 20..40 people; names of up to 180 bytes from a pool of similar spellings, 0..3 names, missing/duplicate events, dates within a decade incl. keyworded, ranges and unparsable; right side independent or an edited copy of the left) x default or random options (four weights summing to 1, ratio/boost in [0,1], prefix <= 10, MaxYears > 0): every individual x individual, the two lists, every family x family, surrounding similarity with and without forceFullCalculation; non-trivial = some individual score strictly between 0 and 1")
 	s.Rapid(t, harness.Share(harness.Pick(6000, 250000)), 122, func(rt *rapid.T) {
 		base := rapid.SampledFrom([]int{1850, 1900, 1990}).Draw(rt, "base")
 		o := gen.GraphOpts{MaxPeople: 6, MaxFamilies: 4, YearLo: base, YearHi: base + rapid.SampledFrom([]int{2, 10, 80}).Draw(rt, "span"), WildDates: true, UIDs: true, Big: 80, BigLo: 20, BigHi: 40}
